@@ -186,7 +186,21 @@ func applySplitting(ssaFunc *ssa.Function, obfRand *mathrand.Rand) bool {
 		return false
 	}
 
-	splitIdx := 1 + obfRand.Intn(len(targetBlock.Instrs)-2)
+	// Phi nodes must all stay at the start of the block they were built for:
+	// the second part gets a single predecessor, so a phi moved there would
+	// have more edges than its block has predecessors.
+	firstSplitIdx := 1
+	for firstSplitIdx < len(targetBlock.Instrs) {
+		if _, ok := targetBlock.Instrs[firstSplitIdx].(*ssa.Phi); !ok {
+			break
+		}
+		firstSplitIdx++
+	}
+	if firstSplitIdx > len(targetBlock.Instrs)-2 {
+		return false
+	}
+
+	splitIdx := firstSplitIdx + obfRand.Intn(len(targetBlock.Instrs)-1-firstSplitIdx)
 
 	firstPart := make([]ssa.Instruction, splitIdx+1)
 	copy(firstPart, targetBlock.Instrs)
